@@ -495,7 +495,7 @@ class World:
             return None
         if v.get('depth'):
             k = eidx[v['depth_ix']]
-            if self.physical_layer(v['depth'], k) >= self.wet_layers(v['depth'], v['kind'])[lin]:
+            if not self.wet_layers(v['depth'], v['kind'])[lin][self.physical_layer(v['depth'], k)]:
                 return None
         elin = int(numpy.ravel_multi_index(eidx, v['eshape'])) if v['eshape'] else 0
         return v['base'] + variant * v['shift'] + elin * v['gsize'] + lin
@@ -514,23 +514,41 @@ class World:
         return p if d['order'] == 'shallow_to_deep' else d['nk'] - 1 - p
 
     def wet_layers(self, depth_name, kind):
-        """per linear index of `kind`: number of wet layers (0..nk), static, shared by all variables on (depth, kind)."""
+        """per linear index of `kind`: list of booleans over *physical* layers (0 = shallowest): does the layer hold data.
+        Static, shared by all variables on (depth, kind).  Mostly contiguous from the surface (a sea floor); sometimes the
+        top layers are missing (above the free surface) or one mid-water layer is missing."""
         key = (depth_name, kind)
         cache = self.__dict__.setdefault('_wet', {})
         if key not in cache:
             import random
             d = self.depth(depth_name)
+            nk = d['nk']
             r = random.Random(f"{self.spec['floor_seed']}/{depth_name}/{kind}")
             size = self.kinds[kind]['size']
-            style = r.choice(['random', 'random', 'all_wet', 'staircase'])
-            if style == 'all_wet':
-                w = [d['nk']] * size
-            elif style == 'staircase':
-                w = [(i % (d['nk'] + 1)) for i in range(size)]
-            else:
-                w = [r.randint(0, d['nk']) for _ in range(size)]
-            cache[key] = w
+            style = r.choice(['random', 'random', 'all_wet', 'staircase', 'ragged'])
+            cols = []
+            for i in range(size):
+                if style == 'all_wet':
+                    w = nk
+                elif style == 'staircase':
+                    w = i % (nk + 1)
+                else:
+                    w = r.randint(0, nk)
+                col = [p < w for p in range(nk)]
+                if style == 'ragged' and w >= 2:
+                    q = r.random()
+                    if q < 0.4:
+                        col[0] = False                      # surface layer missing
+                    elif q < 0.7 and w >= 3:
+                        col[r.randint(1, w - 2)] = False    # a mid-water gap
+                cols.append(col)
+            cache[key] = cols
         return cache[key]
+
+    def deepest_wet(self, depth_name, kind, lin):
+        col = self.wet_layers(depth_name, kind)[lin]
+        wet = [p for p, ok in enumerate(col) if ok]
+        return wet[-1] if wet else None
 
     def floor_array(self, name, variant=0):
         """Expected ocean-floor reduction of a depth variable: float64 with dims (edims minus depth..., 'lin')."""
@@ -538,12 +556,12 @@ class World:
         dix = v['depth_ix']
         eshape = [n for i, n in enumerate(v['eshape']) if i != dix]
         out = numpy.full(eshape + [v['gsize']], numpy.nan)
-        wet = self.wet_layers(v['depth'], v['kind'])
         for eidx in itertools.product(*[range(n) for n in eshape]):
             for lin in range(v['gsize']):
-                if wet[lin] == 0:
+                deepest = self.deepest_wet(v['depth'], v['kind'], lin)
+                if deepest is None:
                     continue
-                k = self.stored_index(v['depth'], wet[lin] - 1)
+                k = self.stored_index(v['depth'], deepest)
                 full = eidx[:dix] + (k,) + eidx[dix:]
                 out[eidx + (lin,)] = self.value(name, lin, full, variant)
         return out
